@@ -266,12 +266,12 @@ func runTxnSchedule(e *Env, ctx context.Context, x *Nd, serial int, ndocs int, s
 // reference semantics computed from the schedule and the observed commit results only
 type refTxn struct {
 	writeLog []int // one entry per successful document-level write (each becomes a commit in the DAG)
-	snap    map[int]*int
-	writes  map[int]*int // nil pointer value = deleted/absent
-	wrote   map[int]bool
-	began   int
-	ended   int
-	active  bool
+	snap     map[int]*int
+	writes   map[int]*int // nil pointer value = deleted/absent
+	wrote    map[int]bool
+	began    int
+	ended    int
+	active   bool
 }
 
 func checkTxnSchedule(e *Env, sched []txOp, obs []txObs, ndocs int, replay any) {
